@@ -544,6 +544,23 @@ Definition unref (o : option svc) : option svc :=
 Definition services_changed (ss : list (option svc)) (entries : list (str * str)) : list (option svc) :=
   map unref (fold_left (fun acc e => config_service acc (fst e) (snd e)) entries (map unconf ss)).
 
+(* a slot that is given to another service says nothing about its new occupant (D30): the masks of every pending client forget it.
+   The C code does this lazily (iauth_xquery_sync, an epoch per slot and per client); the effect is that of clearing the bits when the
+   slot is refilled, which only a reload does. *)
+Fixpoint refilled (old new : list (option svc)) (i : N) : list N :=
+  match old, new with
+  | None :: o', Some _ :: n' => i :: refilled o' n' (i + 1)
+  | _ :: o', _ :: n' => refilled o' n' (i + 1)
+  | _, _ => []
+  end.
+Definition forget (idx : list N) (r : req) : req :=
+  let clr (m : N) := fold_left N.clearbit idx m in
+  {| cid := cid r; ser := ser r; addr := addr r; port := port r; raddr := raddr r;
+     f_host := f_host r; f_ident := f_ident r; f_nick := f_nick r; f_user := f_user r; f_pass := f_pass r; f_empty := f_empty r; f_tout := f_tout r; f_sdone := f_sdone r;
+     holds := holds r; soft := soft r;
+     host := host r; cliu := cliu r; authu := authu r; nick := nick r; real := real r; acct := acct r;
+     hh := hh r; ho := ho r; sent := clr (sent r); refm := refm r; more := clr (more r); okm := clr (okm r); pw := pw r; timer := timer r |}.
+
 Inductive ev :=
 | Ev (id : Z) (argv : list str)
 | Reload (services : list (str * str)) (newrules : list rule) (timeout_set : bool).
@@ -554,7 +571,9 @@ Definition init (c : cfg) (services : list (str * str)) (rs : list rule) (t : bo
 Definition step_ev (c : cfg) (s : st) (e : ev) : st * list out :=
   match e with
   | Ev id argv => step c s id argv
-  | Reload svs rs t => ({| reqs := reqs s; next := next s; tb := {| slots := services_changed (slots (tb s)) svs; rules := rs |}; tmo := t |}, [])
+  | Reload svs rs t =>
+      let new := services_changed (slots (tb s)) svs in
+      ({| reqs := map (forget (refilled (slots (tb s)) new 0)) (reqs s); next := next s; tb := {| slots := new; rules := rs |}; tmo := t |}, [])
   end.
 
 Definition run_out (c : cfg) (s0 : st) (evs : list ev) : list (list out) :=
